@@ -75,6 +75,19 @@ def cases(tier, rng):
         ar = len(parse(rules[0])[1]) - 2
         rules = [r for r in rules if len(parse(r)[1]) - 2 == ar]
         out.append(("(get-rule %d %d (kb %s))" % (rng.choice([0, 0, 7, 50]), rng.randrange(len(rules)), " ".join(rules)), "fetch"))
+    # freshness DURING a search: facts whose variables sit inside structures are matched against unbound goal variables,
+    # then further clauses are fetched; a reused id shows as a wrong answer (exact reference oracle)
+    from gen import progs
+    from gen.progs import C, U, AND, OR, fact, i as I_
+    A_, B_, W_, Z_, H_, T_, X, Y = (var(0, n) for n in ("$A", "$B", "$W", "$Z", "$H", "$T", "$X", "$Y"))
+    wraps = [fact("w", cplx("box", X)), fact("w", lst([H_], T_)), fact("w", cplx("f", cplx("g", X), Y)), fact("w", lst([X, Y])), fact("w", cplx("box", lst([X])))]
+    picks = [rule(cplx("pk", Z_), U(Z_, I_(7))), rule(cplx("pk", Z_), AND(C("n", Z_), U(W_, Z_))), rule(cplx("pk", lst([Z_], W_)), U(Z_, I_(1)))]
+    for wf in wraps:
+        for pk in picks:
+            for body in (AND(C("w", A_), C("pk", B_)), AND(C("w", A_), C("w", B_), C("pk", B_)), AND(C("pk", B_), C("w", A_), C("pk", A_)),
+                         OR(AND(C("w", A_), C("pk", B_)), C("w", B_))):
+                rules = list(progs.LIB) + [wf, pk, rule(cplx("t", A_, B_), body)]
+                out.append((progs.hist(rules, [progs.build(0, [atom("t"), var(0, "$P"), var(0, "$Q")])] + [progs.ask(0)] * 5), "search-fresh"))
     out.append(("(rename-goal 0 gnil)", "malformed"))
     out.append(("(rename-goal 0 %s)" % call(atom("notcomplex")), "malformed"))
     out.append(("(make-query (%s))" % var(0, "$X"), "malformed"))
@@ -87,7 +100,8 @@ def cases(tier, rng):
 RULE = ("every term of the 119-term unification universe and random terms (depth <= 3: atoms, numbers, $_, [], variables with "
         "6 names and stale ids, complex terms, lists with tail variable / $_ tail, function terms, nested empty lists), goals "
         "(calls, built-ins, !/fail/nl, nested and/or/not/time) and rules, renamed from several counter values; queries through "
-        "make_query; clause fetch (get_rule) from knowledge bases of 1-3 clauses whose variables sit only inside lists, nested "
+        "make_query; searches in which facts with variables inside structures meet unbound goal variables before further clauses "
+        "are fetched (answers against the exact reference search); clause fetch (get_rule) from knowledge bases of 1-3 clauses whose variables sit only inside lists, nested "
         "complex terms or function terms, at several counters. Oracle on the implementation's own results (python twin of Proofs/RenameProofs definitions): erasing ids "
         "gives back the input with ids erased; same name <-> same id; every id is above the old counter and at most the new "
         "one. Non-trivial = at least two distinct names and one repeated name.")
@@ -109,10 +123,17 @@ def nontrivial(case, tag, result):
     return len(set(names)) >= 2 and len(names) > len(set(names))
 
 REL_STATS = {}
-def relations(cases, impl):
-    REL_STATS.clear(); REL_STATS.update(oracle_checks=0)
+SPEC_COLUMN_IS_ORACLE_INPUT = True
+_HSTATS = {}
+def relations(cases, impl, model):
+    from gen import histgen
+    hrel = histgen.make_relations(("answers",), _HSTATS)
+    hs = [k for k, (c, t) in enumerate(cases) if t == "search-fresh"]
+    for v in hrel([cases[k] for k in hs], [impl[k] for k in hs], [model[k] for k in hs]):
+        yield v
+    REL_STATS.clear(); REL_STATS.update(oracle_checks=0); REL_STATS.update(_HSTATS)
     for (case, tag), (out, res) in zip(cases, impl):
-        if tag == "malformed": continue
+        if tag in ("malformed", "search-fresh"): continue
         c = parse(case)
         try: r = parse(res)
         except Exception: r = None
